@@ -45,8 +45,7 @@ def classify_hole(t):
         return "type", False
     if s == "self.name":
         return "name", False
-    if t[0] == "param" or s.startswith("(P0") or s.startswith("P0") \
-            or (t[0] == "binop" and "P0" in s and "self" not in s):
+    if t[0] == "param":
         return "pre", False
     if t[0] == "slice" and "P0" in s:
         return "pre", False
@@ -99,6 +98,18 @@ def template_of(t, escaped, refine=None):
             parts.append(("hole", h))
             holes.append(h)
     walk(t)
+    # indentation: a literal run of space pairs right after the prefix hole
+    # is part of the prefix (pre + '  ' is again an indentation)
+    if len(parts) > 1 and parts[0] == ("hole", "pre") \
+            and parts[1][0] == "lit":
+        lit = parts[1][1]
+        k = len(lit) - len(lit.lstrip(" "))
+        k -= k % 2
+        if k:
+            if lit[k:]:
+                parts[1] = ("lit", lit[k:])
+            else:
+                del parts[1]
     return parts, holes
 
 
